@@ -17,7 +17,7 @@ impl Check for C07 {
         "C07"
     }
     fn ncases(&self, tier: Tier) -> u64 {
-        tier.sz(640, 8000)
+        tier.sz(3200, 40000)
     }
     fn rule(&self) -> &'static str {
         "per case one generated grammar without derivation cycle (and whose table has no endless reduction loop), a cost table and 5 inputs: long inputs with up to 10 independent errors (up to 40/60 lexemes), pure garbage, deeply nested prefixes cut off at end of input; parsed (a) with the production 500 ms wall-clock budget and (b) with logical step budgets {50, 500, 5000} so that 'budget ran out mid-parse' paths are driven deterministically; checked: the parse returns; error lexemes strictly increase; consecutive errors are >= 3 real lexemes apart (measured from where parsing resumed after the repair) unless the later one is at/after the end of input; count <= n+1; every error but the last has a repair; value <=> every error has a repair; (value, no errors) => input is a sentence (Earley) with leaves = input. Non-trivial = parse with >= 2 errors; distinct by (grammar, input, budget)."
@@ -29,7 +29,7 @@ impl Check for C07 {
         ]
     }
     fn floor(&self, tier: Tier) -> u64 {
-        tier.sz(250, 4000)
+        tier.sz(1200, 15000)
     }
     fn required_counters(&self, _t: Tier) -> Vec<&'static str> {
         vec!["parses", "parses_with_2plus_errors", "parses_where_budget_ran_out", "parses_production_budget", "errors_at_eof", "accepted_unchanged"]
@@ -95,11 +95,12 @@ impl Check for C07 {
             let toks: Vec<TIdx<u32>> = inp.iter().map(|t| b.tok[*t]).collect();
             let si = syn_input(&toks, &mut rng, true);
             let n = toks.len();
-            let (budget, bname) = match (idx + k) % 4 {
+            let (budget, bname) = match (idx + k) % 5 {
                 0 => (Budget::Production, "production-500ms"),
                 1 => (Budget::Steps(50), "steps-50"),
                 2 => (Budget::Steps(500), "steps-500"),
-                _ => (Budget::Steps(if rc.cost_kind.ends_with("200-255") { 600 } else { 5000 }), "steps-5000"),
+                3 => (Budget::WallMs(if k % 2 == 0 { 0 } else { 2 }), "wall-clock-0-or-2ms"),
+                _ => (Budget::Steps(5000), "steps-5000"),
             };
             out.evals += 1;
             out.count("parses", 1);
